@@ -114,8 +114,22 @@ func runC12(p *core.Program, r *core.Report) {
 			r.Check(okKind, "R12.2", name, "success return dominated by kind == declared IndexKind constant", pos, "an unknown kind byte must not reach a successful return; matched "+kindName)
 			r.Check(okNonEmpty, "R12.2", name, "success return dominated by len(index) != 0", pos, "an empty index must be reported as an error")
 		} else {
-			c, isCall := errV.(*ssa.Call)
-			okErr := isCall && (core.CallName(c) == "fmt.Errorf" || core.CallName(c) == "errors.New")
+			okErr := isFreshError(errV)
+			if phi, isPhi := errV.(*ssa.Phi); isPhi && !okErr {
+				// an error produced by an expanded helper: merged with nil, returned under err != nil
+				guarded := false
+				for _, g := range core.Guards(ret.Block()) {
+					if rel, ok := core.AsRel(g); ok && rel.Op == token.NEQ && rel.X == ssa.Value(phi) && core.IsNilConst(rel.Y) {
+						guarded = true
+					}
+				}
+				okErr = guarded
+				for _, e := range phi.Edges {
+					if !core.IsNilConst(e) && !isFreshError(e) {
+						okErr = false
+					}
+				}
+			}
 			r.Check(okErr, "R12.2", name, "error return carries a freshly constructed non-nil error", pos, "error value is "+core.Describe(errV))
 		}
 		// returned Password derives from an alloc that received the entropy parameter
@@ -157,7 +171,7 @@ func runC12(p *core.Program, r *core.Report) {
 		if okPhi {
 			for i, e := range phi.Edges {
 				if l.Blocks[phi.Block().Preds[i]] {
-					if e != sl.High {
+					if e != sl.High && !advancedUnlessError(e, phi, sl.High, l) {
 						okPhi = false
 					}
 				} else if z, isC := core.ConstInt(e); !isC || z != 0 {
@@ -274,4 +288,58 @@ func passwordCarriesEntropy(v ssa.Value, entropy ssa.Value, depth int) (bool, st
 		}
 	}
 	return false, "no assignment of the entropy parameter reaches the returned Password"
+}
+
+// isFreshError: a call of fmt.Errorf or errors.New.
+func isFreshError(v ssa.Value) bool {
+	c, ok := v.(*ssa.Call)
+	return ok && (core.CallName(c) == "fmt.Errorf" || core.CallName(c) == "errors.New")
+}
+
+// advancedUnlessError: e is a merge (inside the loop) of `high` with the
+// unchanged position, and every edge that leaves the position unchanged carries,
+// in a sibling phi, a fresh non-nil error that is known to be nil at every
+// latch of the loop — so whenever the loop goes round, the position advanced.
+func advancedUnlessError(e ssa.Value, header *ssa.Phi, high ssa.Value, l *core.Loop) bool {
+	m, ok := e.(*ssa.Phi)
+	if !ok || !l.Blocks[m.Block()] || m.Block() == header.Block() {
+		return false
+	}
+	for i, me := range m.Edges {
+		if me == high {
+			continue
+		}
+		if me != ssa.Value(header) {
+			return false
+		}
+		excluded := false
+		for _, in := range m.Block().Instrs {
+			ep, isPhi := in.(*ssa.Phi)
+			if !isPhi {
+				break
+			}
+			if ep == m || !isFreshError(ep.Edges[i]) {
+				continue
+			}
+			all := len(l.Latch) > 0
+			for _, la := range l.Latch {
+				known := false
+				for _, g := range core.Guards(la) {
+					if rel, ok := core.AsRel(g); ok && rel.Op == token.EQL && rel.X == ssa.Value(ep) && core.IsNilConst(rel.Y) {
+						known = true
+					}
+				}
+				if !known {
+					all = false
+				}
+			}
+			if all {
+				excluded = true
+			}
+		}
+		if !excluded {
+			return false
+		}
+	}
+	return true
 }
